@@ -24,3 +24,6 @@ package specs
 //@ func fmt.Errorf
 //@ assigns nothing
 //@ ensures result != nil
+
+//@ func time.(Time).Unix
+//@ pure
